@@ -51,7 +51,8 @@ CLAIMED["C03"] = ("model_checking",
     "reference byte streams with the required packets/ending (StreamCases.tla over MQTTCodec.tla) that are fed in every fragmentation through packet.Decoder, BaseConn, TCP and WebSocket",
     "Design: SameAsReference (result independent of fragmentation), NoPacketFromPartial, LimitBeforeBuffer, DecoderTerminates on all schedules; deviations LimitAfterRead/EofHidesPartial must violate them. "
     "Code: every composition of all streams up to 13 bytes, seeded random chunkings of longer ones (sizes around 127/128, 4096, 16383/16384 and the read limit), a rotating sample through real TCP and WebSocket "
-    "loopback (one message per chunk, several packets per message), and whole-packet streams sent through BaseConn in async/sync mixes with the wire compared to the reference bytes.",
+    "loopback (one message per chunk, several packets per message), and whole-packet streams sent through BaseConn in async/sync mixes - also while the connection "
+    "receives and the carrier writes slowly - with the wire compared to the reference bytes.",
     "Trusted: MQTTCodec.tla as reference for packets and endings; TLC. Loopback TCP segmentation is best effort. Long streams are sampled, not enumerated.",
     "DESIGN.md section 5 C03")
 
@@ -61,7 +62,9 @@ CLAIMED["C19"] = ("model_checking",
     "Design: WireWhole, SenderOrder, NoDuplicates, CloseFlushesAccepted, FlushedIsOnWire, FlushedSendFailsAfterClose, BufferedSendFailsAfterFailedFlush, ErrorClosesCarrier, TimerCoversBuffer, "
     "EveryCallReturns, EventuallyFlushed, ReceiveUnblocked on all interleavings of the bounded configurations; 4 deviations must violate them; the relaxed model without sendMutex is shown to keep "
     "every property. Code: 1-16 sender goroutines, closer and receiver goroutines, flush delays 0-200 ms, carrier failures at the k-th write/read/close/deadline call, timeouts, EOF, blocked writes; "
-    "every carrier write must be the next bytes of the model's stream, every send result the model's, the carrier closed on every error path, every call returned.",
+    "every carrier write must be the next bytes of the model's stream, every send result the model's, the carrier closed on every error path, every call returned. "
+    "Further families: duplex (slow large writes while the connection receives), the same scenarios over real TCP on loopback (logged net.Conn under NetConn), "
+    "and a pass with the Go race detector compiled in.",
     "Trusted: TLC; the model of mercury v0.2.0/bufio read from their source; the scripted carrier (TCP-like close semantics). TCP and WebSocket carriers are covered for framing by C03's replay, "
     "for concurrency only through BaseConn which they embed. Traces rejected only by the strict mutex discipline but accepted by the property-preserving relaxed model are not reported.",
     "DESIGN.md section 5 C19")
